@@ -61,6 +61,8 @@ Match(a) ==
       [] a.op = "reorder" -> Reorder(a.bp, a.cp, a.rev)
       [] a.op = "minc" -> Minc(a.fr, a.sel, a.sc)
       [] a.op = "embed" -> Embed(a.h, a.n, a.r, a.k)
+      [] a.op = "refused" -> (a.clean => (blocks' = blocks /\ blockDict' = blockDict /\ conns' = conns /\ connDict' = connDict
+                                           /\ connNames' = connNames /\ rocks' = rocks /\ rockDict' = rockDict))
       [] OTHER -> FALSE
 
 TraceNext ==
